@@ -364,14 +364,12 @@ def gen_long(rng, cfgs, pts_sub, thorough):
         for extra in ([9] if not thorough else [1, 9, 4097]):
             n = STEP + extra
             idxs = sorted({0, 1, STEP - 1, STEP, n - 1, rng.randrange(2, STEP - 1)} | ({STEP + 1} if extra > 2 else set()))
-            ks = []
-            for i in idxs:
-                ks += [i, rng.choice([1, 2, g.r - 1, rng.randrange(1, g.r)])]
+            ks = [rng.choice([1, 2, g.r - 1, rng.randrange(1, g.r)]) for _ in idxs]
             # more bases than scalars (the leading bases are skipped once) / equal lengths
             more = rng.choice([3, 1]) if (thorough or extra == 9) else 0
-            yield case(g, 'msm_chunks_long', [n, more], ks, sub) + ('%s/msm_chunks_long/n=2^20+%d/bases+%d' % ('toy' if g.toy else g.name, extra, more),)
+            yield case(g, 'msm_chunks_long', [n, more] + idxs, ks, sub) + ('%s/msm_chunks_long/n=2^20+%d/bases+%d' % ('toy' if g.toy else g.name, extra, more),)
             if thorough:
-                yield case(g, 'msm_chunks_long', [n, 0], ks, sub) + ('%s/msm_chunks_long/n=2^20+%d/bases+0' % ('toy' if g.toy else g.name, extra),)
+                yield case(g, 'msm_chunks_long', [n, 0] + idxs, ks, sub) + ('%s/msm_chunks_long/n=2^20+%d/bases+0' % ('toy' if g.toy else g.name, extra),)
 
 
 def sizeclass(n, size):
